@@ -269,7 +269,8 @@ Record rapi := { ra_ns : string; ra_name : string; ra_version : string; ra_nv : 
 Record ropts := { ro_metadata : bool; ro_transport : list string; ro_unversioned_disabled : bool; ro_rest_async : bool }.
 
 (* API.build: disambiguate_keyword_sanitize_fname, applied to every file in order; visited = names so far *)
-Definition invalid_module_names : list string := (kwlist ++ ["metadata"; "retry"; "timeout"; "request"])%list.
+(* keyword.kwlist plus the names API.build adds (regenerated: metadata, request, retry, timeout, transport) *)
+Definition invalid_module_names : list string := (kwlist ++ invalid_module_extra)%list.
 Definition split_ext (fname : string) : string * string :=   (* os.path.splitext on a base name with an inner dot *)
   match rev (split_on "."%char fname) with
   | ext :: (_ :: _) as stem_rev => (sjoin "." (rev stem_rev), "." ++ ext)
@@ -287,12 +288,15 @@ Fixpoint bump (fuel : nat) (dir name ext : string) (visited : list string) : str
   | S f => let full := join_path dir (name ++ "_" ++ ext) in
            if mem_str full visited then bump f dir (name ++ "_") ext visited else full
   end.
+Definition is_dash (c : ascii) : bool := Ascii.eqb c "-"%char.
+(* dots and dashes of the base name become underscores; a name that is reserved as it is or in snake case (Import -> import),
+   or whose path is already taken, gets trailing underscores until the path is free *)
 Definition sanitize_fname (full : string) (visited : list string) : string :=
   let '(dir, fname) := split_path full in
   let '(name0, ext) := split_ext fname in
-  let name := smap (fun c => if is_dot c then "_"%char else c) name0 in
-  let full1 := if contains "."%char name0 then join_path dir (name ++ ext) else full in
-  if mem_str name invalid_module_names || mem_str full1 visited
+  let name := smap (fun c => if is_dot c || is_dash c then "_"%char else c) name0 in
+  let full1 := if contains "."%char name0 || contains "-"%char name0 then join_path dir (name ++ ext) else full in
+  if mem_str name invalid_module_names || mem_str (snake name) invalid_module_names || mem_str full1 visited
   then bump (S (List.length visited)) dir name ext visited else full1.
 Fixpoint sanitize_all (visited : list string) (l : list pfile) : list pfile :=
   match l with
